@@ -43,7 +43,10 @@ def m_int(eng, st, args, kw, fr):
         if isinstance(v, (SBool, bool)):
             return _ret(st, mk_int(zt(v), 0, 1))
         if isinstance(v, Unknown):
-            return eng.unknown_call(st, v, args, kw)
+            if not eng.abstract:
+                raise Unsupported('int() of unknown')
+            b = fresh_bool('intraises')
+            return [(st.fork(z3.Not(b.t)), NORMAL, v.as_int()), (st.fork(b.t), RAISE, Unknown('exc'))]
         if isinstance(v, SLog2):
             n = v.n
             lo, hi = bounds(n)
@@ -124,9 +127,14 @@ def m_minmax(is_min):
     def m(eng, st, args, kw, fr):
         if kw:
             raise Unsupported('min/max with key')
-        vals = list(args[0]) if len(args) == 1 else list(args)
-        if has_unknown(vals):
+        vals = list(args[0]) if len(args) == 1 and isinstance(args[0], (list, tuple)) else list(args)
+        if len(args) == 1 and not isinstance(args[0], (list, tuple)):
             return eng.unknown_call(st, Unknown('minmax'), args, kw)
+        if has_unknown(vals):
+            if all(isinstance(x, (Unknown, SInt, int)) and not isinstance(x, bool) for x in vals):
+                vals = [x.as_int() if isinstance(x, Unknown) else x for x in vals]
+            else:
+                return eng.unknown_call(st, Unknown('minmax'), args, kw)
         if not has_sym(vals):
             try:
                 return _ret(st, (min if is_min else max)(vals))
@@ -539,7 +547,12 @@ def m_complex(eng, st, args, kw, fr):
     return eng.native_call(st, complex, args, kw)
 
 
+def m_print(eng, st, args, kw, fr):
+    return _ret(st, None)
+
+
 DEFAULT_MODELS = {
+    print: m_print,
     complex: m_complex,
     int: m_int, abs: m_abs, min: m_minmax(True), max: m_minmax(False), divmod: m_divmod,
     bool: m_bool, _bisect.bisect: m_bisect, _bisect.bisect_right: m_bisect, len: m_len,
